@@ -222,13 +222,22 @@ def _worker_init():
     signal.signal(signal.SIGTERM, signal.SIG_DFL)
 
 
-def pmap(fn, items, procs=None, chunksize=1):
+def make_pool(procs=None):
+    """A worker pool forked NOW.  A check that runs helper threads (TLC runs in a ThreadPoolExecutor) creates its pool
+    before starting them and hands it to pmap(pool=...): forking a multi-threaded process can deadlock the child."""
+    ctx = multiprocessing.get_context("fork")
+    return ctx.Pool(procs or (os.cpu_count() or 4), initializer=_worker_init)
+
+
+def pmap(fn, items, procs=None, chunksize=1, pool=None):
     """Map fn over items in forked worker processes; machinery exceptions are re-raised."""
     items = list(items)
     if not items:
         return []
     procs = procs or min(len(items), os.cpu_count() or 4)
-    if procs <= 1 or os.environ.get("VERIF_SERIAL"):
+    if pool is not None and not os.environ.get("VERIF_SERIAL"):
+        res = pool.map(_wrap, [(fn, a) for a in items], chunksize=chunksize)
+    elif procs <= 1 or os.environ.get("VERIF_SERIAL"):
         res = [_wrap((fn, a)) for a in items]
     else:
         ctx = multiprocessing.get_context("fork")
